@@ -133,7 +133,7 @@ def check_refile(res, prop, cm, roles, m, b):
                     ok, why = False, 'new entry is not appended at the back of the ttl list'
                 elif add[0].key != dl.val if False else False:
                     pass
-        elif prop in ('C04', 'C05') and typeclass(cm.field_by_name[aux].type) != 'multimap':
+        elif prop in ('C04', 'C05', 'C10') and typeclass(cm.field_by_name[aux].type) != 'multimap':
             pass     # no keyed ttl structure: lookups and removal guards read the entry's own deadline (order is C16/C17's concern)
         else:
             adds = [e for e in effs if e.kind == 'AUX_ADD' and e.aux == aux]
